@@ -36,6 +36,8 @@ type Fail struct {
 	At   int    `json:"at"` // op index
 	// Verify is the most recent observation of verify (facts gathered from the files, decision of the real code) before the failure, if any.
 	Verify *VerifyObs `json:"-"`
+	// Earlier holds the signatures of the failures already recorded in this run (a later failure can be a consequence of an earlier one).
+	Earlier []string `json:"-"`
 }
 
 // Oracles selects which property oracles run.
@@ -87,6 +89,9 @@ func Run(h History, or Oracles) (fails []Fail, st RunStats, err error) {
 		if n := len(st.VerifyObs); n > 0 {
 			v := st.VerifyObs[n-1]
 			f.Verify = &v
+		}
+		for _, p := range fails {
+			f.Earlier = append(f.Earlier, p.Sig)
 		}
 		if or.Classify != nil {
 			or.Classify(h, at, &f)
